@@ -131,7 +131,7 @@ def post(run, seen):
     run.count("history_meets_hypothesis_of_C12_history", out.count("true"))
     run.count("history_outside_hypothesis_of_C12_history", out.count("false"))
     run.notes.append(f"{out.count('true')} of {len(seen)} tested histories satisfy legalSeq, the hypothesis of C12_history "
-                     f"(evaluated by the Lean definition); the others repeat a cut and so create two Roots of one name")
+                     f"(evaluated by the Lean definition)")
 
 
 def run_both(drv, case):
